@@ -114,6 +114,7 @@ def rule_pos_conv(prog):
     for b in bodies:
         by_disp.setdefault(b["d"], b)
     n = 0
+    site_index = {}
 
     def check(e, body, label, loc, seen=frozenset()):
         nonlocal n
@@ -125,11 +126,11 @@ def rule_pos_conv(prog):
                 n += 1
                 out.add(body["d"], label, True, loc, "delta base threaded from the previous as_position result (checked by SEMTOK-PAIRING)")
                 return
-            sites = []
-            for cb in bodies:
-                for call in hir.nodes(cb["body"], "Call"):
-                    if (hir.callee_display(call) or "") == body["d"] and idx < len(call["args"]):
-                        sites.append((cb, call))
+            if not site_index:
+                for cb in bodies:
+                    for call in hir.nodes(cb["body"], "Call"):
+                        site_index.setdefault(hir.callee_display(call) or "", []).append((cb, call))
+            sites = [(cb, call) for cb, call in site_index.get(body["d"], []) if idx < len(call["args"])]
             if not sites or (body["d"], idx) in seen:
                 n += 1
                 out.add(body["d"], label, None, loc, "parameter `%s` without visible call site" % name)
